@@ -46,6 +46,36 @@ func waitOrTimeout(wg *sync.WaitGroup) error {
 	}
 }
 
+// waitSema waits for a round of a semaphore stress.  If the round does not
+// finish, the goroutines are looked at: a goroutine parked inside
+// (*ChanSemaphore).Release is a verdict -- the specification has Release
+// enabled in every state and never waiting for anybody -- and is reported as
+// such (stuck = true: the command stops and closes its files normally).  Any
+// other unfinished round is checker trouble.
+func waitSema(wg *sync.WaitGroup, res *vh.Result, tag string, det map[string]any) (stuck bool, err error) {
+	done := make(chan struct{})
+	go func() { wg.Wait(); close(done) }()
+	select {
+	case <-done:
+		return false, nil
+	case <-time.After(30 * time.Second):
+	}
+	var where []string
+	for _, gs := range allGoroutineStates() {
+		if gs.inRelease && gs.blockedInLib() {
+			where = append(where, "["+gs.state+"] inside syncutil.(*ChanSemaphore).Release")
+		}
+	}
+	if len(where) == 0 {
+		return false, fmt.Errorf("%s: round did not finish within 30 s and no goroutine is parked inside Release (deadlock elsewhere?)", tag)
+	}
+	det["parked"] = where
+	res.Mismatch(tag+": Release does not return",
+		fmt.Sprintf("Release does not return: %d goroutines have been parked in %s for 30 s although Release must never block (free-running goroutines, every Release follows the caller's own successful Acquire or is a spare one)",
+			len(where), where[0]), det)
+	return true, nil
+}
+
 func spin(n int) {
 	for i := 0; i < n; i++ {
 		runtime.Gosched()
@@ -65,10 +95,24 @@ func raceOnce(args []string) error {
 	if err != nil {
 		return err
 	}
+	installRoundHook()
 	seedRng := vh.Rand(1701)
 	gets, keysTotal := 0, 0
 	for round := 0; round < rounds; round++ {
 		in := instByName[instNames[round%len(instNames)]]
+		if round%6 == 2 {
+			// one slow key, many waiters, the other keys must not wait (whatever GOMAXPROCS is)
+			before := res.Mismatches()
+			g, err := instByName[instNames[(round/6)%len(instNames)]].slowRound(round, seedRng, res, "OnceConstructor race stress")
+			if err != nil {
+				return err
+			}
+			gets += g
+			if res.Mismatches() > before {
+				break // goroutines are stuck inside syncutil: the verdict is in
+			}
+			continue
+		}
 		if round%6 == 5 {
 			// faulty environment: the constructor panics for one key
 			g, err := instByName[instNames[(round/6)%len(instNames)]].panicRound(round, seedRng, nil, nil, res, "OnceConstructor race stress")
@@ -271,8 +315,10 @@ func raceSema(args []string) error {
 		}
 		ready.Wait()
 		close(start)
-		if err := waitOrTimeout(&wg); err != nil {
+		if stuck, err := waitSema(&wg, res, "ChanSemaphore race stress", map[string]any{"round": round, "n": n}); err != nil {
 			return err
+		} else if stuck {
+			break
 		}
 		for i, l := range locals {
 			calls += l.calls
@@ -508,8 +554,10 @@ func stressSemaHWM(args []string) error {
 		}
 		ready.Wait()
 		close(start)
-		if err := waitOrTimeout(&wg); err != nil {
+		if stuck, err := waitSema(&wg, res, "ChanSemaphore stress", map[string]any{"round": round, "n": n}); err != nil {
 			return err
+		} else if stuck {
+			break
 		}
 		if m := hwm.Load(); m > int64(n) {
 			res.Mismatch(fmt.Sprintf("ChanSemaphore stress: holders high-water mark, capacity %d", n),
@@ -643,8 +691,10 @@ func stressSema(args []string) error {
 		}
 		ready.Wait()
 		close(start)
-		if err := waitOrTimeout(&wg); err != nil {
+		if stuck, err := waitSema(&wg, res, "ChanSemaphore stress", map[string]any{"round": round, "n": n}); err != nil {
 			return err
+		} else if stuck {
+			break
 		}
 		timers.Wait()
 		all := append([]stamped{}, shared.evs...)
@@ -943,6 +993,175 @@ func panicRound[K comparable, V any](in inst[K, V], round int, seedRng *rand.Ran
 		for _, e := range all {
 			tr.Emit(e.ev)
 		}
+	}
+	return gets, nil
+}
+
+// roundHook is the hook of the stress round in progress.  syncutil.VerifGate
+// itself is written once, before any goroutine exists (installRoundHook):
+// goroutines that earlier rounds legitimately left blocked inside Get have
+// read the variable and never synchronise with anything again, so writing it
+// later would be a data race of the harness's own making.
+var roundHook atomic.Pointer[func(string)]
+
+func installRoundHook() {
+	syncutil.VerifGate = func(point string) {
+		if h := roundHook.Load(); h != nil {
+			(*h)(point)
+		}
+	}
+}
+
+// slowKeyRound is the stress form of "a slow construction of one key does not
+// block Get of another": the constructor of key "a" stays inside its call
+// until the harness lets it go; half of the goroutines request "a" (they miss
+// the fast track together and then wait for the winner), the others request
+// "b" or "c" -- the constructor of "c" itself makes a nested Get("b").  Every
+// Get of "b" / "c" must end while "a" is still under construction, however
+// many callers are waiting for "a" and whatever runtime.GOMAXPROCS is (the
+// check runs this also in processes with GOMAXPROCS=1 and 2).  A goroutine
+// that is still parked inside syncutil after hangWait is the violation.
+func slowKeyRound[K comparable, V any](in inst[K, V], round int, seedRng *rand.Rand, res *vh.Result, tag string) (gets int, err error) {
+	resetOpaque()
+	const ng = stressG
+	release := make(chan struct{})
+	var nextID atomic.Int64
+	var oc *syncutil.OnceConstructor[K, V]
+	oc = syncutil.NewOnceConstructor(func(kk K) V {
+		switch in.str(kk) {
+		case "a":
+			<-release
+		case "c":
+			_ = oc.Get(in.key("b"))
+		}
+		return in.mk(int(nextID.Add(1)))
+	})
+	keys := make([]string, ng)
+	for i := range keys {
+		keys[i] = "a"
+		if i%2 == 1 {
+			keys[i] = string(rune('b' + seedRng.IntN(2)))
+		}
+	}
+	seedRng.Shuffle(ng, func(i, j int) { keys[i], keys[j] = keys[j], keys[i] })
+	slots := make([]V, ng)
+	flags := make([]atomic.Int32, ng)
+	gids := make([]uint64, ng)
+	var ready sync.WaitGroup
+	start := make(chan struct{})
+	startFast := make(chan struct{})
+	for i := 0; i < ng; i++ {
+		i := i
+		ready.Add(1)
+		go func() {
+			gids[i] = curGID()
+			ready.Done()
+			<-start
+			if keys[i] != "a" {
+				<-startFast // the other keys are requested once "a" is under construction
+			}
+			slots[i] = oc.Get(in.key(keys[i]))
+			flags[i].Store(1)
+		}()
+	}
+	// All requesters of "a" miss the fast track TOGETHER: the guarded hook after
+	// the Load miss holds each of them until all have arrived (or 5 ms), so that
+	// there is one constructing caller and ng/2-1 callers that merely wait for it.
+	nA := 0
+	for _, k := range keys {
+		if k == "a" {
+			nA++
+		}
+	}
+	var arrived atomic.Int32
+	hook := func(point string) {
+		if point != "once.miss" {
+			return
+		}
+		id := curGID()
+		for i, g := range gids {
+			if g == id && keys[i] == "a" {
+				arrived.Add(1)
+				for t0 := time.Now(); int(arrived.Load()) < nA && time.Since(t0) < 5*time.Millisecond; {
+					runtime.Gosched()
+				}
+				return
+			}
+		}
+	}
+	roundHook.Store(&hook)
+	defer roundHook.Store(nil)
+	ready.Wait()
+	close(start)
+	// wait (at most 2 s, never an alarm) until the constructing caller and all
+	// waiters of "a" are parked inside syncutil, then let the others go
+	for t0 := time.Now(); time.Since(t0) < 2*time.Second; time.Sleep(50 * time.Microsecond) {
+		all, parked := allGoroutineStates(), 0
+		for i, id := range gids {
+			if keys[i] == "a" && all[id].blockedInLib() {
+				parked++
+			}
+		}
+		if parked == nA {
+			break
+		}
+	}
+	close(startFast)
+	det := map[string]any{"round": round, "instantiation": in.name, "goroutines": ng, "GOMAXPROCS": runtime.GOMAXPROCS(0)}
+	waitFor := func(slow bool) (pending []int) {
+		deadline := time.Now().Add(hangWait)
+		for {
+			pending = pending[:0]
+			for i := range flags {
+				if (keys[i] == "a") == slow && flags[i].Load() != 1 {
+					pending = append(pending, i)
+				}
+			}
+			if len(pending) == 0 || time.Now().After(deadline) {
+				return pending
+			}
+			time.Sleep(100 * time.Microsecond)
+		}
+	}
+	if pending := waitFor(false); len(pending) > 0 {
+		// the construction of "a" is still parked (the harness has not released it)
+		all := allGoroutineStates()
+		var stuck []string
+		for _, i := range pending {
+			if gs := all[gids[i]]; gs.blockedInLib() {
+				stuck = append(stuck, fmt.Sprintf("Get(%q): [%s] inside syncutil", keys[i], gs.state))
+			}
+		}
+		close(release)
+		if len(stuck) == 0 {
+			return 0, fmt.Errorf("%s slow-key round %d: Gets of the fast keys did not end within %s but none is parked inside syncutil", tag, round, hangWait)
+		}
+		det["stuck"] = stuck
+		res.Mismatch(tag+": Get of one key blocked by the slow construction of another",
+			fmt.Sprintf("%d Gets of keys \"b\"/\"c\" are parked inside syncutil %s after the start while only the construction of \"a\" is in progress (parked) and %d goroutines wait for it: a slow construction of one key blocks Get of another (GOMAXPROCS=%d, %s)",
+				len(stuck), hangWait, ng/2-1, runtime.GOMAXPROCS(0), in.name), det)
+		return 0, nil
+	}
+	close(release)
+	if pending := waitFor(true); len(pending) > 0 {
+		return 0, fmt.Errorf("%s slow-key round %d: %d Gets of the slow key did not end within %s after its constructor returned", tag, round, len(pending), hangWait)
+	}
+	first := map[string]V{}
+	for i, k := range keys {
+		gets++
+		x := slots[i]
+		if f, ok := first[k]; !ok {
+			first[k] = x
+		} else if !in.identical(f, x) {
+			res.Mismatch(tag+": result identity", "two Gets of the same key returned different objects ("+in.name+")", det)
+		}
+		if in.id(x) <= 0 {
+			res.Mismatch(tag+": foreign result ("+in.name+")", "Get returned a value the constructor never returned ("+in.name+")", det)
+		}
+	}
+	if n := int(nextID.Load()); n != len(first) {
+		res.Mismatch(tag+": constructor invocations per key ("+in.name+")",
+			fmt.Sprintf("%d constructor invocations for %d keys (%s)", n, len(first), in.name), det)
 	}
 	return gets, nil
 }
